@@ -171,6 +171,7 @@ inline BasicPromise* BasicCancellable::proxy_promise() noexcept {
 inline bool BasicCancellable::cancel(VersionedValue<uint32_t> id) noexcept {
   auto accessor = DepositBox<BasicCancellable*>::instance().take(id);
   if (accessor) {
+    BABYLON_VERIF_POINT("cocancel:cancel_taken");
     (*accessor)->do_cancel();
     return true;
   }
@@ -180,6 +181,7 @@ inline bool BasicCancellable::cancel(VersionedValue<uint32_t> id) noexcept {
 inline bool BasicCancellable::resume(VersionedValue<uint32_t> id) noexcept {
   auto accessor = DepositBox<BasicCancellable*>::instance().take(id);
   if (accessor) {
+    BABYLON_VERIF_POINT("cocancel:resume_taken");
     (*accessor)->do_resume();
     return true;
   }
@@ -243,6 +245,7 @@ template <typename P>
 inline ::std::coroutine_handle<> Cancellable<A>::await_suspend(
     ::std::coroutine_handle<P> handle) noexcept {
   auto id = emplace(handle);
+  BABYLON_VERIF_POINT("cocancel:emplaced");
   _task = [](A awaitable, VersionedValue<uint32_t> id) -> Task<ResultType> {
     struct S {
       inline ~S() noexcept {
@@ -254,6 +257,7 @@ inline ::std::coroutine_handle<> Cancellable<A>::await_suspend(
   }(::std::forward<A>(_awaitable), id);
   auto proxy_handle = _task.handle();
   set_proxy_promise(&proxy_handle.promise());
+  BABYLON_VERIF_POINT("cocancel:proxy_set");
   if (_on_suspend) {
     _on_suspend(Cancellation {id});
   }
